@@ -14,48 +14,12 @@ package discov
 
 import (
 	"fmt"
-	"sort"
 	"strconv"
-	"strings"
 	"testing"
 
 	"github.com/zeromicro/go-zero/core/logx"
 	"github.com/zeromicro/go-zero/internal/verifh"
 )
-
-func c13DumpContainer(c *container) (string, string) {
-	c.lock.Lock()
-	defer c.lock.Unlock()
-	type ent struct {
-		id int
-		s  string
-	}
-	var vs []ent
-	for v, keys := range c.values {
-		ids := make([]string, 0, len(keys))
-		for _, k := range keys {
-			ids = append(ids, VerifKeyID(k))
-		}
-		id, _ := strconv.Atoi(VerifValID(v))
-		vs = append(vs, ent{id, VerifValID(v) + ":[" + strings.Join(ids, ".") + "]"})
-	}
-	sort.Slice(vs, func(i, j int) bool { return vs[i].id < vs[j].id })
-	var ms []ent
-	for k, v := range c.mapping {
-		id, _ := strconv.Atoi(VerifKeyID(k))
-		ms = append(ms, ent{id, VerifKeyID(k) + ":" + VerifValID(v)})
-	}
-	sort.Slice(ms, func(i, j int) bool { return ms[i].id < ms[j].id })
-	a := make([]string, len(vs))
-	for i, e := range vs {
-		a[i] = e.s
-	}
-	b := make([]string, len(ms))
-	for i, e := range ms {
-		b[i] = e.s
-	}
-	return strings.Join(a, ";"), strings.Join(b, ",")
-}
 
 func TestVerifC13(t *testing.T) {
 	logx.Disable()
@@ -80,7 +44,7 @@ func TestVerifC13(t *testing.T) {
 		sub.AddListener(func() { n2++ })
 		ses.Attach()
 		observe := func() string {
-			vals, mp := c13DumpContainer(sub.items)
+			vals, mp := VerifDumpContainer(sub)
 			noted := strconv.Itoa(n1)
 			if n1 != n2 {
 				noted = fmt.Sprintf("%d/%d", n1, n2)
